@@ -725,6 +725,28 @@ pub fn run_scenario(sc: &Scenario, scratch: &Path, grace_ms: u64, watchdog_ms: u
     out
 }
 
+/// Is any thread of this process other than the caller runnable or running right now?
+fn other_thread_runnable() -> bool {
+    // SAFETY: gettid has no preconditions.
+    let me = unsafe { libc::syscall(libc::SYS_gettid) } as i64;
+    let Ok(rd) = std::fs::read_dir("/proc/self/task") else { return false };
+    for e in rd.flatten() {
+        let tid: i64 = e.file_name().to_string_lossy().parse().unwrap_or(0);
+        if tid == me {
+            continue;
+        }
+        if let Ok(stat) = std::fs::read_to_string(e.path().join("stat")) {
+            // pid (comm) state ...; comm may contain spaces, the state follows the last ')'
+            if let Some(state) = stat.rsplit(')').next().and_then(|r| r.trim_start().chars().next()) {
+                if state == 'R' || state == 'D' {
+                    return true;
+                }
+            }
+        }
+    }
+    false
+}
+
 enum Verdict {
     Harness(String),
     Violation(String, Vec<String>),
@@ -776,6 +798,13 @@ impl Sched<'_> {
                         continue;
                     }
                     Err(RecvTimeoutError::Timeout) => {
+                        // Starvation is not deadlock: as long as any other thread of this process
+                        // is runnable (state R) the consumer may simply not have been scheduled.
+                        if other_thread_runnable() && started.elapsed() < Duration::from_secs(110) {
+                            self.events.push("watchdog: a consumer thread is runnable, waiting on".into());
+                            self.lenient = true;
+                            continue;
+                        }
                         if !program_done {
                             let Cmd::Write(fd, n) = self.sc.program[self.pc] else {
                                 return Err(Verdict::Harness("blocked on a non-write".into()));
